@@ -294,14 +294,11 @@ class RealWorld(BaseWorld):
         return self._close(a, b)
 
     def le(self, a, b):
-        if _isint(a) and _isint(b):
-            return int(a) <= int(b)
-        return float(a) <= float(b) + self.rtol * max(1.0, abs(float(a)), abs(float(b)))
+        # order comparisons are exact (they steer the harness' control flow on boundaries); only eq has a tolerance
+        return bool(a <= b)
 
     def lt(self, a, b):
-        if _isint(a) and _isint(b):
-            return int(a) < int(b)
-        return float(a) < float(b) + self.rtol * max(1.0, abs(float(a)), abs(float(b)))
+        return bool(a < b)
 
     def all(self, conds):
         return all(bool(c) for c in conds)
